@@ -22,7 +22,11 @@ Inductive case :=
    runs, the shadow stubs *)
 | CRun (bs : list backend) (ep_timeout : Z) (req : request) (fullcopy : bool)
        (outs : list (nat * soutcome)) (calls : list (list nat)) (plain_ids : list nat) (watchdog : bool)
-       (plain shadowed : cres) (pregs sregs : list robs) (shs : list sobs).
+       (plain shadowed : cres) (pregs sregs : list robs) (shs : list sobs)
+(* long history on ONE proxy: the client call number hist, made while the shadow calls of all
+   hist earlier requests are still hung (never released); blocked = it did not return until
+   the harness released the hung shadow calls; alarm = a harness watchdog fired *)
+| CHist (bs : list backend) (hist : nat) (blocked alarm : bool) (plain shadowed : cres).
 
 (* ErrNoBackends is the only error the default factory returns *)
 Definition default_ferr (l : list nat) : option string :=
@@ -35,6 +39,18 @@ Definition corr_shadow_b (n : nat) (T ep : Z) (s : sobs) : bool :=
   | Some d => (e <=? d)%Z && (d <=? so_seen s + e)%Z
   | None => false
   end.
+
+Definition dummy_spawned : spawned :=
+  {| s_ctx := background; s_req := {| q_method := ""; q_path := ""; q_hdr := []; q_qry := []; q_par := []; q_body := None |} |}.
+
+Definition check_hist (bs : list backend) (hist : nat) (blocked alarm : bool) (plain shadowed : cres) : bool * bool :=
+  (* the model: with hist shadow calls in flight the caller gets the regular result, at once *)
+  (negb alarm &&
+   match fst (serve (fun _ _ _ => plain) bs (repeat dummy_spawned hist) 0 0%Z background (s_req dummy_spawned)) with
+   | Some x => negb blocked && cres_eqb x shadowed
+   | None => false
+   end,
+   negb blocked && cres_eqb plain shadowed).
 
 Definition check_case (c : case) : bool * bool :=
   match c with
@@ -58,6 +74,7 @@ Definition check_case (c : case) : bool * bool :=
        | None => false
        end,
        spec_run_b bs req fullcopy outs plain shadowed pregs sregs shs)
+  | CHist bs hist blocked alarm plain shadowed => check_hist bs hist blocked alarm plain shadowed
   end.
 
 Fixpoint failing (i : nat) (cs : list case) : list verdict :=
